@@ -1,3 +1,35 @@
-From CRS Require Import Lib.Bytes Model.Broker.
-Theorem c11_placeholder : cin init = None.
-Proof. reflexivity. Qed.
+(** C11 — the log is a complete, ordered transcript.  (That the JSON handler
+    writes one parsable object per line is checked by the harness against the
+    real slog.NewJSONHandler; slog's escaping is standard library.) *)
+From CRS Require Import Lib.Bytes Model.Broker Proofs.BrokerProofs Props.C01.
+Open Scope N_scope.
+
+(** Input: the 'Shell I/O' records are exactly the lines written, in order,
+    minus at most the last one — whose own failure ended the stream. *)
+Theorem c11_input_records : forall fuel s x, exists last,
+  flat_map w_data (o_w (snd (deliver fuel s x))) = flat_map lio (o_log (snd (deliver fuel s x))) ++ last /\
+  (length last <= 1)%nat /\
+  (last <> [] -> In (Log (LDisc true) (st_id x)) (o_log (snd (deliver fuel s x)))).
+Proof. exact deliver_logged. Qed.
+
+(** Output: each displayed chunk has exactly one record with the same bytes. *)
+Theorem c11_output_records : forall s id data e x,
+  get s id = Some x -> st_ph x = PAttached -> sd_dir (st_d x) = DOut ->
+  exists tail ltail,
+    o_och (snd (step s (OData id data e))) = (match data with [] => [] | _ => [OPlain data] end) ++ tail /\
+    (forall d, ~ In (OPlain d) tail) /\
+    o_log (snd (step s (OData id data e))) = (match data with [] => [] | _ => [Log (LIO data) id] end) ++ ltail /\
+    (forall d i, ~ In (Log (LIO d) i) ltail).
+Proof. exact data_step. Qed.
+
+(** Refused attempts (outside shutdown): exactly one error record. *)
+Theorem c11_refusal_record : forall s x, accepts s x = false -> nomore s = false ->
+  exists l, o_log (snd (admission s x)) = [Log l (st_id x)].
+Proof. intros s x Ha Hn. destruct (admission_refuses s x Ha) as (_ & _ & _ & _ & _ & _ & H). apply H, Hn. Qed.
+
+Example c11_example :
+  let ops := [OAdmit 1 (mkd DIn (KUni [97]) 1); OAdmit 2 (mkd DOut (KUni [97]) 2); OLine [105; 100];
+              OData 2 [34; 0; 255] None; OAdmit 3 (mkd DIn (KUni []) 3)] in
+  map o_log (snd (run ops)) =
+    [[Log LNew 1]; [Log LNew 2]; [Log (LIO [105; 100; 10]) 1]; [Log (LIO [34; 0; 255]) 2]; [Log LKeyMissing 3]].
+Proof. vm_compute. reflexivity. Qed.
